@@ -59,6 +59,7 @@ func (in c16Input) yaml() string {
 	if in.Probes == "http" || in.Probes == "both" {
 		fmt.Fprintf(&b, "    liveness_probe:\n      http_get:\n        host: %q\n        path: %q\n        port: \"404{{.PC_REPLICA_NUM}}\"\n", in.tpl("host"), "/"+in.tpl("path"))
 	}
+	b.WriteString("  k:\n    command: \"keeps\"\n    namespace: ns1\n    launch_timeout_seconds: 1\n    replicas: 1\n")
 	b.WriteString("  x:\n    command: \"plain\"\n  y:\n    command: \"other {{.PC_REPLICA_NUM}}\"\n    replicas: 2\n")
 	if in.GlobalVar {
 		// u overrides a project-level variable locally, v and z use the project-level value
@@ -198,6 +199,12 @@ func c16One(o *E2Out, dir string, in c16Input, full bool) {
 		for key, pc := range prj.Processes {
 			if pc.Name == "" || pc.Namespace == "" || pc.Replicas < 1 || pc.LaunchTimeout <= 0 {
 				o.violation("C16", "default:missing", fmt.Sprintf("process %s: name %q namespace %q replicas %d launch timeout %d", key, pc.Name, pc.Namespace, pc.Replicas, pc.LaunchTimeout), in)
+			}
+			if pc.Name == "k" && (pc.Namespace != "ns1" || pc.LaunchTimeout != 1 || pc.Replicas != 1 || key != "k") {
+				o.violation("C16", "default:overrides-configured", fmt.Sprintf("configured namespace ns1 / launch timeout 1 / replicas 1 loaded as %q / %d / %d (key %s)", pc.Namespace, pc.LaunchTimeout, pc.Replicas, key), in)
+			}
+			if pc.Name == "x" && (pc.Namespace != "default" || pc.LaunchTimeout != 5 || pc.Replicas != 1) {
+				o.violation("C16", "default:value", fmt.Sprintf("defaults of x: namespace %q launch timeout %d replicas %d", pc.Namespace, pc.LaunchTimeout, pc.Replicas), in)
 			}
 			if in.GlobalVar {
 				switch pc.Name {
